@@ -270,7 +270,7 @@ func (o *out) nl() {
 
 func (o *out) noise() {
 	// blank lines / comment lines between physical lines
-	switch o.r.draw(9, "noise") {
+	switch o.r.draw(11, "noise") {
 	case 1:
 		o.nl()
 	case 2:
@@ -278,6 +278,11 @@ func (o *out) noise() {
 		o.nl()
 	case 3:
 		o.sb.WriteString("  \t")
+		o.nl()
+	case 10:
+		// a long comment line: around and beyond the sizes of read buffers (4096, 8192, 65536)
+		n := []int{4000, 4095, 4096, 4097, 5000, 8191, 8200, 20000, 70000}[o.r.draw(8, "longc")]
+		o.sb.WriteString("# " + strings.Repeat("long comment with tokens } { import \" ", n/30+1)[:n])
 		o.nl()
 	}
 }
